@@ -74,6 +74,7 @@ func (s *segmentMetadata) getIndex(vecIdx VectorIndex, txtIdx TextIndex, metaIdx
 	}
 
 	// Create new hybrid index
+	verifPoint("segment.load.begin", s.id, vecIdx, txtIdx, metaIdx)
 	idx := NewHybridSearchIndex(vecIdx, txtIdx, metaIdx)
 
 	// Open all segment files
@@ -153,6 +154,7 @@ func (s *segmentMetadata) getIndex(vecIdx VectorIndex, txtIdx TextIndex, metaIdx
 	// Deserialize the index
 	if readerFrom, ok := idx.(io.ReaderFrom); ok {
 		if _, err := readerFrom.ReadFrom(combinedReader); err != nil {
+			verifPoint("segment.load.error", s.id, err)
 			return nil, fmt.Errorf("failed to deserialize segment: %w", err)
 		}
 	} else {
@@ -161,6 +163,7 @@ func (s *segmentMetadata) getIndex(vecIdx VectorIndex, txtIdx TextIndex, metaIdx
 
 	// Cache the loaded index
 	s.cachedIndex = idx
+	verifPoint("segment.load.done", s.id, idx)
 
 	return idx, nil
 }
